@@ -28,13 +28,19 @@ def cfg_consts(cfg):
     """Read the constants the harness has to agree on out of a .cfg file."""
     s = open(os.path.join(verif.SPEC, FAMILY, cfg)).read()
     out = {}
-    for k in ("Retention", "T", "N", "NI"):
+    for k in ("Retention", "T", "N", "NI", "MaxClock"):
         m = re.search(r"^\s*%s\s*=\s*(\d+)" % k, s, re.M)
         out[k] = int(m.group(1))
     return out
 
 
 def exhaustive(ctx, cfg, what, timeout, workers=None, coverage=False, expect_violation=None):
+    if os.environ.get("VERIF_DEV_SKIP_TLC"):
+        # development switch for mutation testing on a loaded machine: the exhaustive runs do not depend on
+        # the Go code. The run can then only end with a VIOLATION (exit 1) or INCONCLUSIVE (exit 2), never OK.
+        if not any("VERIF_DEV_SKIP_TLC" in x for x in ctx.inconclusive):
+            ctx.inconclusive_note("VERIF_DEV_SKIP_TLC set: exhaustive TLC runs skipped")
+        return None
     r = ctx.tlc(FAMILY, MODULE, cfg=cfg, timeout=timeout, workers=workers, coverage=coverage, deadlock=False)
     if expect_violation:
         # negative control: the configuration models the code's known deviation and must be rejected
@@ -44,10 +50,20 @@ def exhaustive(ctx, cfg, what, timeout, workers=None, coverage=False, expect_vio
         return r
     ctx.require_tlc_ok(r, what)
     if coverage:
-        acts = [a for a in r.coverage_zero if a in ("Tick", "Cas", "Gossip", "Deliver", "DeliverGarbage", "PPStep", "PushPull",
-                                                     "WatcherArm", "WatcherRelease", "Partition", "Heal", "Restart")]
-        ctx.extra.setdefault("zero_coverage_actions", {})[cfg] = acts
+        # vacuity guard: remember which named actions (ATick, ACas, ...) were taken at least once
+        cov = ctx.extra.setdefault("action_coverage", {})
+        for name, n, _cost in re.findall(r"^<(A[A-Z]\w+) line [^>]*>: (\d+):(\d+)", r.log, re.M):
+            cov[name] = cov.get(name, 0) + int(_cost)   # generated successors (first number: new distinct states)
     return r
+
+
+def require_action_coverage(ctx, actions):
+    if os.environ.get("VERIF_DEV_SKIP_TLC"):
+        return
+    cov = ctx.extra.get("action_coverage", {})
+    zero = [a for a in actions if cov.get(a, 0) == 0]
+    if zero:
+        raise verif.Inconclusive("vacuity guard: actions never taken in the exhaustive runs: %s" % ", ".join(zero))
 
 
 def generate_and_replay(ctx, prop, cfg, num_per_worker, run_depth, workers=4, timeout=600, corrupt_expected=False):
@@ -71,5 +87,62 @@ def generate_and_replay(ctx, prop, cfg, num_per_worker, run_depth, workers=4, ti
     res = ctx.run_harness("c06", "^TestReplay$", env=env, timeout=timeout)
     if res.get("cases") != len(lines) and not res.get("fatal"):
         raise verif.Inconclusive("%s: harness replayed %s of %d behaviours" % (cfg, res.get("cases"), len(lines)))
+    acts = (res.get("extra") or {}).pop("actions_replayed", None) or {}
+    tot = ctx.extra.setdefault("actions_replayed", {})
+    for a, n in acts.items():
+        tot[a] = tot.get(a, 0) + n
     ctx.absorb(res, cfg)
     return res
+
+
+def _record(ctx, tag, ntraces, steps, timeout):
+    k = cfg_consts("GossipKVTrace.cfg")
+    tr = ctx.path("trace_%s.ndjson" % tag)
+    res = ctx.run_harness("c06", "^TestRecord$", timeout=timeout, env={
+        "VERIF_TRACE": tr, "VERIF_NTRACES": ntraces, "VERIF_STEPS": steps, "VERIF_N": k["N"], "VERIF_NI": k["NI"],
+        "VERIF_RETENTION": k["Retention"], "VERIF_T": k["T"], "VERIF_MAXCLOCK": k["MaxClock"]})
+    if res.get("fatal"):
+        raise verif.Inconclusive("recording driver: %s" % res["fatal"])
+    return tr, res
+
+
+def _validate(ctx, tr, timeout):
+    r = ctx.tlc(FAMILY, "GossipKVTrace", cfg="GossipKVTrace.cfg", extra_files={tr: "trace.ndjson"}, workers=1,
+                deadlock=False, timeout=timeout, count=False)
+    m = re.search(r'TRACE-REJECTED-AT-LINE", (\d+)', r.log)
+    if m:
+        return r, int(m.group(1))
+    if r.timed_out or r.rc != 0 or r.violated:
+        raise verif.Inconclusive("trace validation: TLC rc=%s violated=%s %s" % (r.rc, r.violated, (r.error or "")[:300]))
+    return r, None
+
+
+def record_and_validate(ctx, ntraces, steps, timeout=900):
+    """code -> spec: traces recorded from real nodes under a seeded adversarial scheduler (4 nodes, 3 ids)
+    are validated by TLC against GossipKVTrace.tla. A rejected trace is re-recorded once with the same
+    seed; only a rejection that repeats is a disagreement of the code with the specification."""
+    import json
+    tr, res = _record(ctx, "a", ntraces, steps, timeout)
+    for mm in (res.get("mismatches") or []):
+        ctx.disagreement(mm, "record")
+    r, line = _validate(ctx, tr, timeout)
+    nev = int((res.get("extra") or {}).get("trace_events", 0))
+    ctx.extra["trace_events_validated"] = ctx.extra.get("trace_events_validated", 0) + (nev if line is None else line - 1)
+    if line is None:
+        ctx.traces += ntraces
+        ctx.evaluations += nev
+        return
+    tr2, _ = _record(ctx, "b", ntraces, steps, timeout)
+    r2, line2 = _validate(ctx, tr2, timeout)
+    if line2 != line:
+        raise verif.Inconclusive("trace rejected at line %s but the re-recorded trace at %s: recording is not deterministic" % (line, line2))
+    evs = open(tr).read().split("\n")
+    ev = json.loads(evs[line - 1])
+    start = max(i for i in range(line) if json.loads(evs[i]).get("a") == "Reset")
+    prefix = []
+    for i in range(start + 1, line):
+        e = json.loads(evs[i])
+        prefix.append({k: v for k, v in e.items() if k != "post"})
+    ctx.disagreement({"sig": "trace:%s" % ev.get("a"), "case": {"line": line, "events_since_reset": prefix[-40:]},
+                      "got": ev.get("post"), "want": "an enabled step of GossipKV.tla whose post-state projects to the logged observation"},
+                     "GossipKVTrace")
